@@ -6,8 +6,8 @@ SP = "TaskGroup._spawn"
 TD = "TaskGroup._spawn.task_done"
 
 M("c01-F4-revert-checkpoint-after-test", "C01", A, AE,
-  "                if not self._tasks:\n                    # If there are no child tasks to wait on, run at least one checkpoint\n                    # anyway\n                    await AsyncIOBackend.cancel_shielded_checkpoint()\n\n                if self._tasks:",
-  "                if not self._tasks:\n                    await AsyncIOBackend.cancel_shielded_checkpoint()\n                elif self._tasks:", ["R01-a"])
+  "                            exc_val = exc\n\n                if self._tasks:\n                    with CancelScope() as wait_scope:",
+  "                            exc_val = exc\n\n                elif self._tasks:\n                    with CancelScope() as wait_scope:", ["R01-a"])
 M("c01-if-instead-of-while", "C01", A, AE, "                        while self._tasks:", "                        if self._tasks:", ["R01-a", "R01-b"])
 M("c01-await-after-join", "C01", A, AE,
   "                if self._exceptions:\n                    # The exception that got us here",
@@ -68,3 +68,8 @@ N("c01-n-status-flat", "C01", TASKS, "TaskHandle.status",
   "        if self._exception is None:\n            return TaskHandle.Status.FINISHED\n\n        if isinstance(self._exception, get_cancelled_exc_class()):\n            return TaskHandle.Status.CANCELLED\n\n        return TaskHandle.Status.FAILED")
 
 M("c01-classifier-not-total", "C01", A, "is_anyio_cancellation", "            exc.args\n            and isinstance(exc.args[0], str)\n            and exc.args[0].startswith", "            exc.args\n            and exc.args[0].startswith", ["R01-h"])
+
+# F13 revert: the native cancellation of the exit checkpoint skips the join
+M("c01-F13-revert-native-cancel-skips-join", "C01", A, "TaskGroup.__aexit__",
+  "                    try:\n                        await AsyncIOBackend.cancel_shielded_checkpoint()\n                    except CancelledError as exc:\n                        # A native cancellation got through the shield. Any task that\n                        # was started during the checkpoint still has to be waited on\n                        # below, so handle this the same way as in the wait loop.\n                        self.cancel_scope.cancel()\n                        if exc_val is None or (\n                            isinstance(exc_val, CancelledError)\n                            and not is_anyio_cancellation(exc)\n                        ):\n                            exc_val = exc\n",
+  "                    await AsyncIOBackend.cancel_shielded_checkpoint()\n", ["R01-a"])
